@@ -56,8 +56,8 @@ class UnitResult:
     pass
 
 
-def _run_verus(rs, extra=()):
-    cmd = ["verus", os.path.basename(rs), "--output-json", "--time", "--multiple-errors", "20", "--rlimit", RLIMIT,
+def _run_verus(rs, extra=(), rlimit=None):
+    cmd = ["verus", os.path.basename(rs), "--output-json", "--time", "--multiple-errors", "20", "--rlimit", str(rlimit or RLIMIT),
            "--num-threads", os.environ.get("VERIF_THREADS", "8")] + list(extra) + ["--", "--error-format=json"]
     t0 = time.time()
     p = subprocess.run(cmd, cwd=os.path.dirname(rs), capture_output=True, text=True)
@@ -399,12 +399,13 @@ def _propagate(m, lines, obl, extra):
             region.append(ln)
         return region
     done = set()
+    also_bad = {}       # function -> labels of ITS contract that failed when a callee's failed clause was taken away
     for _round in range(6):
         changed = False
         for (s_, e_, fk) in fns:
             region = header(s_, e_)
             labs = {m["linemap"].get(str(ln)) for ln in region} - {None}
-            bad = set()
+            bad = set(l for l in also_bad.get(fk, set()) if l in labs)
             for l in labs:
                 if l not in obl or obl[l]["kind"] != "clause":
                     continue
@@ -464,6 +465,12 @@ def _propagate(m, lines, obl, extra):
                         hard = True      # a body failure in the caller masks the rest of that caller
                     if lab:
                         hit.add(lab)
+                        # the caller's own contract clause (same label already failed elsewhere, e.g. Hunk::view and
+                        # HunkView::new share C02.view_trim): its callers must be looked at as well
+                        if any((sp["line_start"] <= ln <= sp["line_end"]) for sp in prim for ln in header(grange[0], grange[1])) \
+                                and lab not in also_bad.get(g, set()):
+                            also_bad.setdefault(g, set()).add(lab)
+                            changed = True
                 if hard:
                     for ln in range(grange[0], grange[1] + 1):
                         l2 = m["linemap"].get(str(ln))
@@ -500,6 +507,39 @@ def verify_unit(unit, canary=True, extra=()):
     if m.get("verify_only"):
         extra = list(extra) + ["--verify-function", m["verify_only"], "--verify-root"]
     res = _run_verus(m["rs"], extra)
+    # ---- resource-out retry.  A proof that FAILS often exhausts the solver's resource limit instead of failing cleanly
+    # (and an unstable one may tip over after an unrelated edit).  Every function that hit the limit is re-verified ALONE
+    # with four times the limit; its diagnostics from that run replace the resource-out.  Still out of resources ->
+    # undecided as before; verified -> recorded as an instability note, not as a failure.
+    r.rlimit_retries = []
+    if any(classify(d) == "resource" for d in res["diags"]) and not m.get("verify_only"):
+        keep = []
+        retry_fns = []
+        unit_file0 = os.path.basename(m["rs"])
+        for d in res["diags"]:
+            if classify(d) != "resource":
+                keep.append(d)
+                continue
+            spans = [x for x in (resolve_span(sp, unit_file0) for sp in d.get("spans", [])) if x is not None]
+            fn = None
+            if spans:
+                pl0 = spans[0]["line_start"]
+                for (s0, e0, fk0) in m["fnmap"]:
+                    if s0 <= pl0 <= e0:
+                        fn = fk0
+                if fn is None:
+                    fn = _enclosing_fn(lines, pl0)
+            if fn is None:
+                keep.append(d)
+            elif fn not in retry_fns:
+                retry_fns.append(fn)
+        for fn in retry_fns:
+            res2 = _run_verus(m["rs"], list(extra) + ["--verify-function", fn, "--verify-root"], rlimit=int(RLIMIT) * 4)
+            out2 = [d for d in res2["diags"] if classify(d) in ("verif", "resource", "frontend")]
+            r.rlimit_retries.append(dict(function=fn, outcome=("verified" if not out2 else
+                                         "resource" if any(classify(d) == "resource" for d in out2) else "failed")))
+            keep.extend(out2)
+        res["diags"] = keep
     r.cmd = res["cmd"]
     r.wall = res["wall"]
     r.raw = res
